@@ -302,7 +302,8 @@ def step (s : DState) (line : String) : DState × String :=
         -- the fork switch: removeFromCommonAncestor(group at height h), then AddGroup of the fork's groups
         match parseNat? h, parseAll parseForkGroup toks with
         | some h, some gs =>
-          if c.count ≥ 4294967296 ∨ (getGroupByHeight c.disk h).isNone ∨ h ≥ c.count then (s, "unmodelled") else
+          if c.count ≥ 4294967296 ∨ (getGroupByHeight c.disk h).isNone ∨ h ≥ c.count
+              ∨ (getGroupByHeight c.disk h).map (·.height) ≠ some h then (s, "unmodelled") else
           let r := forkSwitch s.dur c h gs
           if r.1.count ≥ 9223372036854775808 then ({ s with boot := none }, "unmodelled") else
           ({ s with boot := some (.alive r.1) }, toString r.2 ++ " " ++ status r.1)
